@@ -80,7 +80,9 @@ def gen_spec(rng, prof, ctx=None):
             hooks = "-"
         else:
             ctx.unlock_hooks = True
-    return [rng.choice(prof.get("modes", "ggggrx")), rng.choice("0001"), rng.choice(cbs), rng.choice(cbs),
+    # swallow: 0 = the worker lets a CancelledError through, 1 = catches it and returns, 2 = catches the first one and goes
+    # on awaiting (and lets the next one through)
+    return [rng.choice(prof.get("modes", "ggggrx")), rng.choice(prof.get("sw", "0001")), rng.choice(cbs), rng.choice(cbs),
             rng.choice("00001"), rng.choice("1111111110"), hooks]
 
 
